@@ -8,6 +8,9 @@ file is
     header?  `package <parent>`?  package-object{ unsigned aliases?, type aliases }?
     package{ structs (input order), enums (input order) }?
 
+(`<parent>` / the block name are the package name split at its last dot; a name without a dot has
+no `package <parent>` line and names the blocks itself.)
+
 The printer has no mutable state (`type_mappings` is only read with `get`), so nothing is threaded
 between the files of a run.  Declarations are first built as fact records (`ScParam`, `ScClass`,
 `ScCase`, `ScEnum`, `ScAlias`: what a declaration binds and what it refers to) and then rendered;
@@ -33,6 +36,14 @@ def rsplitOnceDot (s : Str) : Option (Str × Str) :=
   match s.reverse.span (· != '.') with
   | (_, []) => none
   | (lastRev, _ :: parentRev) => some (parentRev.reverse, lastRev.reverse)
+
+/-- `Scala::last_package_segment`: everything after the last dot, or the whole name when it has
+none (`fix:` commit fb91590; before it `package object <x> {` / `package <x> {` were only written
+for a name with a dot, their closing braces always) -/
+def lastPackageSegment (package : Str) : Str :=
+  match rsplitOnceDot package with
+  | some (_, last) => last
+  | none => package
 
 mutual
   /-- `Language::format_type` (default) with `Scala::format_special_type`; special types are NOT
@@ -286,8 +297,10 @@ def writeEnum (cfg : Cfg) (e : RustEnum) : Outcome Str :=
 /-- everything one output file declares -/
 structure ScFile where
   header : Option Str                 -- version
-  /-- `package.rsplit_once('.')`: `(parent, last)` -/
-  split : Option (Str × Str)
+  /-- the parent of `package.rsplit_once('.')`: the `package <parent>` line, when written -/
+  parent : Option Str
+  /-- `last_package_segment()`: the name of the package object and of the package block -/
+  last : Str
   /-- the package object, when written: whether it starts with the unsigned aliases, and the aliases -/
   packageObject : Option (Bool × List ScAlias)
   /-- the package block, when written -/
@@ -298,22 +311,18 @@ def renderFile (f : ScFile) : Str :=
   (match f.header with
    | some v => s%"/**\n * Generated by typeshare " ++ v ++ s%"\n */\n"
    | none => []) ++
-  (match f.split with
-   | some (parent, _) => s%"package " ++ parent ++ s%"\n\n"
+  (match f.parent with
+   | some parent => s%"package " ++ parent ++ s%"\n\n"
    | none => []) ++
   (match f.packageObject with
    | some (unsigned, aliases) =>
-     (match f.split with
-      | some (_, last) => s%"package object " ++ last ++ s%" {\n\n"
-      | none => []) ++
+     s%"package object " ++ f.last ++ s%" {\n\n" ++
      (if unsigned then unsignedAliases else []) ++
      (aliases.flatMap renderAlias) ++ s%"}\n"
    | none => []) ++
   (match f.packageBody with
    | some (classes, enums) =>
-     (match f.split with
-      | some (_, last) => s%"package " ++ last ++ s%" {\n\n"
-      | none => []) ++
+     s%"package " ++ f.last ++ s%" {\n\n" ++
      (classes.flatMap renderClass) ++ (enums.flatMap renderEnum) ++ s%"}\n"
    | none => [])
 
@@ -332,7 +341,8 @@ def fileFacts (cfg : Cfg) (d : ParsedData) : Outcome ScFile :=
      (Outcome.mapM' (classFacts cfg) d.structs).bind fun cs =>
      (Outcome.mapM' (enumFacts cfg) d.enums).bind fun es => .ok (some (cs, es))
    else .ok none).bind fun packageBody =>
-  .ok { header := cfg.versionHeader, split := rsplitOnceDot cfg.package, packageObject, packageBody }
+  .ok { header := cfg.versionHeader, parent := (rsplitOnceDot cfg.package).map (·.1),
+        last := lastPackageSegment cfg.package, packageObject, packageBody }
 
 /-- `Language::generate_types` for one output file -/
 def generate (cfg : Cfg) (d : ParsedData) : Outcome Str :=
